@@ -38,7 +38,7 @@ var c04LifeST = []string{"finalize"}
 func c04Mutators(front string) []string {
 	var out []string
 	out = append(out, c04Puts...)
-	if front == "bs" {
+	if front == "bs" || front == "bsf" {
 		out = append(out, c04Many...)
 		out = append(out, c04LifeBS...)
 	} else {
@@ -64,6 +64,7 @@ type rwStore interface {
 type bsStore struct {
 	bs   *blockstore.ReadWrite
 	path string
+	f    *os.File // caller-owned file (front "bsf"): stays open after Finalize/Discard
 }
 
 func (s *bsStore) Put(b kit.Blk) error { return s.bs.Put(drv.Ctx, b.Block()) }
@@ -123,7 +124,13 @@ func (s *bsStore) Life(op string) error {
 	panic(op)
 }
 func (s *bsStore) File() []byte { b, _ := os.ReadFile(s.path); return b }
-func (s *bsStore) Cleanup()     { s.bs.Discard(); os.Remove(s.path) }
+func (s *bsStore) Cleanup() {
+	s.bs.Discard()
+	if s.f != nil {
+		s.f.Close()
+	}
+	os.Remove(s.path)
+}
 
 type stStore struct {
 	st   *storage.StorageCar
@@ -171,7 +178,21 @@ func openRW(front, dir string, roots []cid.Cid, o drv.Opts, name string) (rwStor
 		if err != nil {
 			return nil, err
 		}
-		return &bsStore{bs, path}, nil
+		return &bsStore{bs: bs, path: path}, nil
+	}
+	if front == "bsf" {
+		// the caller owns the file: it stays open (and writable) after Finalize/Discard, so a
+		// stray write after closing is observable in the file bytes
+		f, err := os.OpenFile(path, os.O_RDWR|os.O_CREATE|os.O_TRUNC, 0o644)
+		if err != nil {
+			return nil, err
+		}
+		bs, err := blockstore.OpenReadWriteFile(f, roots, o.List()...)
+		if err != nil {
+			f.Close()
+			return nil, err
+		}
+		return &bsStore{bs: bs, path: path, f: f}, nil
 	}
 	f, err := os.OpenFile(path, os.O_RDWR|os.O_CREATE|os.O_TRUNC, 0o644)
 	if err != nil {
@@ -477,8 +498,11 @@ func genC04(tier string, emit func(any)) {
 	if tier == "thorough" {
 		depth = 5
 	}
-	for _, front := range []string{"bs", "st"} {
+	for _, front := range []string{"bs", "st", "bsf"} {
 		for _, mc := range []uint64{0, 40} {
+			if front == "bsf" && mc != 0 {
+				continue
+			}
 			for mask := 0; mask < 16; mask++ {
 				o := drv.Opts{Whole: mask&1 != 0, AllowDup: mask&2 != 0, StoreID: mask&4 != 0, V1: mask&8 != 0, MaxCid: mc}
 				if mask%5 == 1 {
@@ -499,7 +523,7 @@ func init() {
 		Gen:    genC04,
 		Run:    runC04,
 		Decode: kit.DecodeAs[C04Case],
-		Rule: "explicit-state breadth-first search over mutator sequences (Put of 6 colliding blocks, 3 PutMany batches, Finalize, Discard, FinalizeReadOnly, Close) up to the depth bound, for 16 option sets x MaxIndexCidSize {default,40} x {blockstore.ReadWrite, storage.NewReadableWritable}; " +
+		Rule: "explicit-state breadth-first search over mutator sequences (Put of 6 colliding blocks, 3 PutMany batches, Finalize, Discard, FinalizeReadOnly, Close) up to the depth bound, for 16 option sets x MaxIndexCidSize {default,40} x {blockstore.OpenReadWrite, blockstore.OpenReadWriteFile (caller-owned file), storage.NewReadableWritable}; " +
 			"each successor replays the path on a fresh real instance; in EVERY reached state every observer (Has/Get/GetSize of 11 CIDs, AllKeysChan, Roots, file bytes) is compared with the map model; states are de-duplicated on (model state, implementation observation fingerprint incl. file bytes); non-trivial = state with >=2 stored blocks",
 		Bound: func(tier string) map[string]any {
 			if tier == "thorough" {
